@@ -1,5 +1,7 @@
 from typing import Type
 
+import pandas as pd
+
 from reamber.base.lists.TimedList import TimedList
 
 
@@ -19,7 +21,10 @@ class ConvertBase:
 
         buffer = target.empty(len(src))
         for to_, from_ in mapping.items():
-            buffer.__setattr__(
-                to_, src.__getattribute__(from_) if isinstance(from_, str) else from_
-            )
+            val = src.__getattribute__(from_) if isinstance(from_, str) else from_
+            # Copy by position, not by row label: the source rows carry
+            # whatever labels their history left (filter, stack, rate, ...).
+            if isinstance(val, pd.Series):
+                val = val.to_numpy()
+            buffer.__setattr__(to_, val)
         return buffer
